@@ -34,12 +34,13 @@ Theorem C15_volcano_eq_upstream_amounts : forall tracked plsup ippvs plr ippl dr
 Proof. exact volcano_eq_upstream_amounts. Qed.
 Print Assumptions C15_volcano_eq_upstream_amounts.
 
-(* WHAT IS RESERVED: TaskInfo.Resreq (charged to the node ledger by
-   NodeInfo.AddTask) and TaskInfo.InitResreq (what predicates compare with the
-   idle amount) are both upstream's effective request + pods, and BestEffort is
-   "that vector is empty" — for every pod and EVERY lifecycle position m of the
-   pod (phase "", Pending, Running, Succeeded, Failed, Unknown; with or without
-   spec.nodeName; with or without a deletion timestamp). *)
+(* api.NewTaskInfo: TaskInfo.Resreq, TaskInfo.InitResreq and BestEffort are all
+   derived from the one value GetPodResourceRequest returns.  NOTE: the
+   lifecycle position m (phase, nodeName, deletionTimestamp) does not occur in
+   the definitions of task_resreq / task_init_resreq / task_best_effort, so the
+   quantifier over m carries no proof content: that the CODE ignores m for these
+   fields is established by reading job_info.go 207-232 and by the correspondence
+   observables (tags 5-10) over pods in every phase, not by this theorem. *)
 Theorem C15_task_reservation_eq_upstream : forall tracked plsup ippvs plr ippl dra m p,
   pod_ok tracked plsup p ->
   let up1 := add_scalar (new_resource tracked (k8s_pod_requests plsup (opts_of ippvs plr ippl dra) p)) pods_name 1 in
@@ -56,24 +57,105 @@ Theorem C15_law_reservation_is_the_relation : forall up vc rq irq be,
 Proof. exact law_task_reservation_spec. Qed.
 Print Assumptions C15_law_reservation_is_the_relation.
 
-Theorem C15_law_reservation_accepts_models : forall tracked plsup ippvs plr ippl dra m p,
-  pod_ok tracked plsup p ->
-  law_task_reservation (new_resource tracked (k8s_pod_requests plsup (opts_of ippvs plr ippl dra) p))
-    (vc_pod_request tracked plsup ippvs plr ippl dra p)
-    (task_resreq tracked plsup ippvs plr ippl dra m p)
-    (task_init_resreq tracked plsup ippvs plr ippl dra m p)
-    (task_best_effort tracked plsup ippvs plr ippl dra m p) = true.
-Proof. exact law_reservation_accepts_models. Qed.
-Print Assumptions C15_law_reservation_accepts_models.
 
-(* consequently a node fits under volcano's count iff it fits under upstream's *)
-Theorem C15_fits_iff : forall tracked plsup ippvs plr ippl dra p,
+(* WHAT THE SCHEDULER CACHE CHARGES (SchedulerCache.NewTaskInfo, the TaskInfo that
+   addPod hands to NodeInfo.AddTask / JobInfo.AddTaskInfo): api.NewTaskInfo's
+   vector with the pod's CSI volumes counted on their attach-limit names; Resreq
+   and InitResreq are one object.  For every list [keys] of names the volume
+   lookups resolve to: the charged vector is upstream's request + pods with
+   [keys] counted on top -- so it EXCEEDS upstream's PodRequests on exactly the
+   attach-limit names (kube-scheduler accounts volume limits in a separate
+   plugin, not in the pod request). *)
+Theorem C15_cache_reservation_eq_upstream : forall tracked plsup ippvs plr ippl dra keys m p,
   pod_ok tracked plsup p ->
-  forall eps free d,
-  less_equal eps (vc_pod_request tracked plsup ippvs plr ippl dra p) free d =
-  less_equal eps (add_scalar (new_resource tracked (k8s_pod_requests plsup (opts_of ippvs plr ippl dra) p)) pods_name 1) free d.
-Proof. exact fits_iff. Qed.
-Print Assumptions C15_fits_iff.
+  let up1 := add_scalar (new_resource tracked (k8s_pod_requests plsup (opts_of ippvs plr ippl dra) p)) pods_name 1 in
+  cache_task_resreq tracked plsup ippvs plr ippl dra keys m p = cache_add_csi up1 keys /\
+  cache_task_init_resreq tracked plsup ippvs plr ippl dra keys m p = cache_add_csi up1 keys /\
+  cache_task_best_effort tracked plsup ippvs plr ippl dra keys m p = is_empty 1 (cache_add_csi up1 keys).
+Proof. exact cache_reservation_eq_upstream. Qed.
+Print Assumptions C15_cache_reservation_eq_upstream.
+
+(* what "counted on top" means, without the modelled function: cpu and memory
+   untouched, every name gains its number of occurrences in [keys], names that
+   do not occur keep their entry or absence *)
+Theorem C15_cache_add_csi_spec : forall r keys,
+  cpu (cache_add_csi r keys) = cpu r /\ mem (cache_add_csi r keys) = mem r /\
+  (forall k, sget (cache_add_csi r keys) k = sget r k + Z.of_nat (count_occ Pos.eq_dec keys k)) /\
+  (forall k, k ∉ keys -> scm (cache_add_csi r keys) !! k = scm r !! k).
+Proof. exact cache_add_csi_spec. Qed.
+Print Assumptions C15_cache_add_csi_spec.
+
+Theorem C15_law_cache_reservation_is_the_relation : forall up crq cirq be keys,
+  law_cache_reservation up crq cirq be keys = true <->
+  crq = cache_add_csi (add_scalar up pods_name 1) keys /\
+  cirq = cache_add_csi (add_scalar up pods_name 1) keys /\
+  be = is_empty 1 (cache_add_csi (add_scalar up pods_name 1) keys).
+Proof. exact law_cache_reservation_spec. Qed.
+Print Assumptions C15_law_cache_reservation_is_the_relation.
+
+(* IN KUBE-SCHEDULER'S UNITS, not through volcano's NewResource: kube_cpu is
+   MilliValue() of the cpu entry, kube_value k is Value() of entry k (what
+   framework.Resource.Add keeps).  Same cpu, same memory, one more pod; a tracked
+   scalar / ephemeral-storage amount in whole units is kube's x 1000; a name
+   NewResource does not track (count/..., IgnoredDevicesList, non-scalar names)
+   is NOT reserved by volcano at all although upstream's list carries it. *)
+Theorem C15_volcano_in_kube_units : forall tracked plsup ippvs plr ippl dra p,
+  pod_ok tracked plsup p ->
+  let vc := vc_pod_request tracked plsup ippvs plr ippl dra p in
+  let L := k8s_pod_requests plsup (opts_of ippvs plr ippl dra) p in
+  cpu vc = kube_cpu L /\ mem vc = kube_value L mem_name /\
+  sget vc pods_name = kube_value L pods_name + 1 /\
+  (forall k, k <> cpu_name -> k <> mem_name -> k <> pods_name ->
+     bool_decide (k = eph_name) || tracked k = true ->
+     whole_units (default 0 (L !! k)) -> sget vc k = 1000 * kube_value L k) /\
+  (forall k, k <> cpu_name -> k <> mem_name -> k <> pods_name -> k <> eph_name -> tracked k = false ->
+     scm vc !! k = None).
+Proof. exact volcano_in_kube_units. Qed.
+Print Assumptions C15_volcano_in_kube_units.
+
+Theorem C15_law_kube_units_is_the_relation : forall kcpu kmem ksc vc rq,
+  law_kube_units kcpu kmem ksc vc rq = true <->
+  cpu vc = kcpu /\ mem vc = kmem /\ cpu rq = kcpu /\ mem rq = kmem /\
+  Forall (fun kv => sget vc kv.1 = 1000 * kv.2 /\ sget rq kv.1 = 1000 * kv.2) ksc.
+Proof. exact law_kube_units_spec. Qed.
+Print Assumptions C15_law_kube_units_is_the_relation.
+
+Theorem C15_law_not_less_is_the_relation : forall up vc,
+  law_not_less up vc = true <->
+  cpu up <= cpu vc /\ mem up <= mem vc /\
+  forall k v, scm up !! k = Some v -> v + (if bool_decide (k = pods_name) then 1 else 0) <= sget vc k.
+Proof. exact law_not_less_spec. Qed.
+Print Assumptions C15_law_not_less_is_the_relation.
+
+(* THE NODE LEDGER: for every list of resident pods (each with its resolved
+   volume names and lifecycle position) the sum the cache charges is the sum of
+   upstream's requests (+ pods + volumes); by induction over the list. *)
+Theorem C15_node_used_eq_upstream : forall tracked plsup ippvs plr ippl dra (rs : list (list positive * pod_meta * pod)),
+  Forall (fun x => pod_ok tracked plsup x.2) rs ->
+  node_used (map (fun x => cache_task_resreq tracked plsup ippvs plr ippl dra x.1.1 x.1.2 x.2) rs) =
+  node_used (map (fun x => cache_add_csi
+                 (add_scalar (new_resource tracked (k8s_pod_requests plsup (opts_of ippvs plr ippl dra) x.2)) pods_name 1)
+                 x.1.1) rs).
+Proof. exact node_used_eq_upstream. Qed.
+Print Assumptions C15_node_used_eq_upstream.
+
+(* COROLLARY BY CONGRUENCE ONLY (second sentence of the property): volcano's
+   comparison "InitResreq of the new pod <= allocatable - sum charged to the
+   residents" answers the same on volcano's vectors and on upstream's.  Kubelet
+   admission, the predicates plugin and NodeInfo's status-dependent accounting
+   are NOT modelled; see docs/notes/C15.md "Audit answers" W2. *)
+Theorem C15_node_fits_iff : forall tracked plsup ippvs plr ippl dra rs alloc eps d keys m p,
+  Forall (fun x => pod_ok tracked plsup x.2) rs -> pod_ok tracked plsup p ->
+  less_equal eps (cache_task_init_resreq tracked plsup ippvs plr ippl dra keys m p)
+    (sub alloc (node_used (map (fun x => cache_task_resreq tracked plsup ippvs plr ippl dra x.1.1 x.1.2 x.2) rs))) d =
+  less_equal eps
+    (cache_add_csi (add_scalar (new_resource tracked (k8s_pod_requests plsup (opts_of ippvs plr ippl dra) p)) pods_name 1) keys)
+    (sub alloc (node_used (map (fun x => cache_add_csi
+                 (add_scalar (new_resource tracked (k8s_pod_requests plsup (opts_of ippvs plr ippl dra) x.2)) pods_name 1)
+                 x.1.1) rs))) d.
+Proof. exact node_fits_iff. Qed.
+Print Assumptions C15_node_fits_iff.
+
 
 (* the executable law evaluated on the Go results is this relation, and it
    accepts the models' own outputs *)
@@ -82,12 +164,6 @@ Theorem C15_law_is_the_relation : forall up vc,
 Proof. exact law_same_request_spec. Qed.
 Print Assumptions C15_law_is_the_relation.
 
-Theorem C15_law_accepts_models : forall tracked plsup ippvs plr ippl dra p,
-  pod_ok tracked plsup p ->
-  let vc := vc_pod_request tracked plsup ippvs plr ippl dra p in
-  law_task_request (new_resource tracked (k8s_pod_requests plsup (opts_of ippvs plr ippl dra) p)) vc vc vc = true.
-Proof. exact law_accepts_models. Qed.
-Print Assumptions C15_law_accepts_models.
 
 (* the building blocks the induction rests on: NewResource commutes with the
    two operations of the upstream computation on on-grid lists *)
